@@ -413,6 +413,8 @@ class Frame:
                 return sp.sympify(a) / sp.sympify(b)
             if op == "%":
                 return a % b
+            if op in ("<<", ">>", "|", "&", "^") and isinstance(a, int) and isinstance(b, int):
+                return {"<<": a << b, ">>": a >> b, "|": a | b, "&": a & b, "^": a ^ b}[op]
             if op in ("<", "<=", ">", ">=", "==", "!="):
                 if isinstance(a, sp.Basic) or isinstance(b, sp.Basic):
                     d = sp.expand(sp.sympify(a) - sp.sympify(b))
